@@ -100,3 +100,34 @@ Definition check_loop (a : loop_args) (exp : list revent * N) : bool :=
   | Some (evs, final, _) => list_eqb revent_eqb evs (fst exp) && (final =? snd exp)
   | None => false
   end.
+
+(** ** group aei: [compute_anchor_edit_info] on generated batches *)
+Definition aei_fix : Type := (N * N * str * list str)%type.   (* type, anchor id, anchor raw, edit raws *)
+Definition bfix_of (x : aei_fix) : bfix :=
+  let '(ty, a, raw, es) := x in {| b_type := etype_of ty; b_anchor := a; b_anchor_raw := raw; b_edits := es |}.
+(* per anchor id (sorted by the harness): delete, replace, create_before, create_after, #fixes, first_replace *)
+Definition aei_row : Type := (N * (N * N * N * N * N * option N))%type.
+Definition case_t_aei : Type := (N * list aei_fix * option (list aei_row))%type.
+
+Fixpoint insert_row (r : aei_row) (l : list aei_row) : list aei_row :=
+  match l with
+  | [] => [r]
+  | x :: l' => if fst r <=? fst x then r :: l else x :: insert_row r l'
+  end.
+Definition sort_rows (l : list aei_row) : list aei_row := fold_right insert_row [] l.
+
+Definition model_aei (fs : list aei_fix) : option (list aei_row) :=
+  match compute_aei [] (map bfix_of fs) with
+  | Crash _ => None
+  | Val m => Some (sort_rows (map (fun ki =>
+      (fst ki, (a_delete (snd ki), a_replace (snd ki), a_create_before (snd ki), a_create_after (snd ki),
+                N.of_nat (length (a_fixes (snd ki))), a_first_replace (snd ki)))) m))
+  end.
+
+Definition row_eqb (a b : aei_row) : bool :=
+  let '(k, (d, r, cb, ca, n, fr)) := a in
+  let '(k', (d', r', cb', ca', n', fr')) := b in
+  (k =? k') && (d =? d') && (r =? r') && (cb =? cb') && (ca =? ca') && (n =? n') && opt_eqb N.eqb fr fr'.
+
+Definition check_aei (fs : list aei_fix) (exp : option (list aei_row)) : bool :=
+  opt_eqb (list_eqb row_eqb) (model_aei fs) exp.
